@@ -47,10 +47,10 @@ def eqpairs(ls):
 DWT2_CALLS = {
     "quick": dict(HWCodes=code(sq(2, 9) | {(h, w) for h in (12, 17, 24) for w in (2, 3, 5)} | {(w, h) for h in (12, 17, 24) for w in (2, 3, 5)}),
                   LCodes=code(eqpairs([2, 4, 6])), ModeSet=MODES, JMax=2, Apis={"fwd"}, Shard=0, NShards=1,
-                  Emit=True, NoneFix=True, GuardFix=True, SlotFix=False, PerFix=True),
+                  Emit=True, NoneFix=True, GuardFix=True, SlotFix=True, PerFix=True),
     "thorough": dict(HWCodes=code(sq(2, 16) | {(h, w) for h in (21, 24, 33) for w in (2, 3, 5, 8)} | {(w, h) for h in (21, 24, 33) for w in (2, 3, 5, 8)}),
                      LCodes=code(eqpairs([2, 4, 6, 8, 10])), ModeSet=MODES, JMax=3, Apis={"fwd"}, Shard=0, NShards=1,
-                     Emit=True, NoneFix=True, GuardFix=True, SlotFix=False, PerFix=True),
+                     Emit=True, NoneFix=True, GuardFix=True, SlotFix=True, PerFix=True),
 }
 
 
